@@ -1,5 +1,6 @@
 import HapVerif.Model.C02
 import HapVerif.Drv.Common
+import HapVerif.Drv.C02Sock
 namespace HapVerif.C02
 open HapVerif.Drv
 
@@ -153,6 +154,9 @@ def histOracle (steps : List String) : Option String :=
 /-- `pair <flags> <old> <cur> <script>`; impl: `<0|1> <cmds> <cur'> <running table>` or `PANIC` -/
 def handle (args : List String) (impl : String) : Verdict :=
   match args with
+  | "sock" :: _faults :: ops =>
+    -- real socket clients against worker generations behind real unix sockets (Drv/C02Sock.lean)
+    C02Sock.handleSock ops impl
   | "hist" :: _faults :: ops =>
     -- end-to-end form: the theorems (pair_sound lifted over histories: every step is a reload, which
     -- loads the files, or a pair update, which keeps running = disk; history_sound_cookie for the cookie of every
